@@ -4,14 +4,15 @@
   zero-sized box of an empty text); the calls on the target are the calls of the original moved by `d`;
   `translate_mut` = `translate`.
   Models: EG.Model.TextLayout (`Transform for Text`), EG.Model.Font (`draw_string`),
-  EG.Model.CallTranslate. Helper lemmas: EG/Lemmas/TextLayoutTranslate.lean.
+  EG.Model.CallTranslate. Helper lemmas: EG/Lemmas/TextLayoutTranslate.lean, TextLayoutTranslateColor.lean
+  (every style, picture), EG/Lemmas/CallTranslate.lean (moved calls => shifted picture).
 
-  -- [V] text: calls (hence picture) of the translated text when exactly one of text / background colour is set (the colour adapter lowers glyph cells to `draw_iter` over `area.points()`; moving `Rectangle::points` needs the i32-range side conditions): carried by correspondence + oracle only; proved: positions, returned position, box, calls on the binary target for every style, target calls when both or neither colour is set
+  -- [V] text: coordinates for which the text's bounding box leaves the `i32` range while exactly one of text / background colour is set (guard `Rect.InRange` of the box false: `Rectangle::points` of a glyph cell saturates; C08's topic): carried by correspondence + oracle only; proved: positions, returned position, box, calls on the binary target for every style, target calls for every style (box in range; no guard when both or neither colour is set), picture on both targets
   -- [V] text: `translate_mut` has the same effect as `translate` (mutation through `&mut self` is not modelled; `translate_mut_eq_translate` is definitional in the model): carried by correspondence + oracle only
 -/
-import EG.Lemmas.TextLayoutTranslate
+import EG.Lemmas.TextLayoutTranslateColor
 namespace EG.C07.Text
-open EG EG.Font EG.TextLayout
+open EG EG.Font EG.TextLayout EG.Tgt
 
 /-- `translate_mut` does what `translate` does, and only the position changes.
 DEFINITIONAL (every component is `rfl`): the model defines `Text.translateMut` and `Text.translate`
@@ -60,8 +61,56 @@ theorem text_translate_calls (f : MonoFont) (atlas : Pt → Bool) (t : TextLayou
 example : ((⟨some 1, some 2, .textColor, .none⟩ : Style).textColor = none ↔
     (⟨some 1, some 2, .textColor, .none⟩ : Style).bgColor = none) := by decide
 
+/-- **The calls on the target of the translated text are the calls of the original moved by `d`, for
+EVERY style** — in particular when exactly one of text / background colour is set, where the colour
+adapter lowers each glyph cell to `draw_iter` over `area.points()` (filtered by the glyph bits):
+every cell lies inside the text's bounding box, so `Rectangle::points` of the moved cell are the
+moved points once the box is in the `i32` range before and after the move. -/
+theorem text_translate_calls_all_styles (f : MonoFont) (atlas : Pt → Bool) (t : TextLayout.Text) (d : Pt)
+    (hR : (boundingBox f t).InRange) (hR' : (boundingBox f (t.translate d)).InRange) :
+    (draw f atlas (t.translate d)).1 = (draw f atlas t).1.map (Call.translate d) :=
+  draw_calls_translate f atlas t d hR hR'
+
+/-- The colour adapter commutes with the move, per binary-target call and for every mode. -/
+theorem text_translate_colour_adapter (m : Mode) (d : Pt) (b : BCall)
+    (h : (bcallArea b).MoveOK d) :
+    m.lower (bcallTranslate d b) = (m.lower b).map (Call.translate d) :=
+  lower_translate m d b h
+
+/-- **The picture**: the translated text on the target box moved along leaves the picture of the
+original shifted by `d`, natively (R2) and through the trait defaults (R1), for every style.
+(`FontBoxOK`: the strikethrough lies inside the character cell — true of all built-in fonts; the
+colour / spacing hypothesis excludes the transparent style with a spaced font, whose decorations
+span the trailing spacing and are wider than the box — observation (a) of DESIGN.md 14, outside
+every property.) -/
+theorem text_translate_picture (f : MonoFont) (atlas : Pt → Bool) (t : TextLayout.Text) (d : Pt) (B : Rect)
+    (hok : FontBoxOK f)
+    (hadv : t.style.textColor ≠ none ∨ t.style.bgColor ≠ none ∨ f.spacing = 0)
+    (hR : (boundingBox f t).InRange) (hR' : (boundingBox f (t.translate d)).InRange) :
+    runNative (B.translate d) (draw f atlas (t.translate d)).1 =
+      PMap.shift d (runNative B (draw f atlas t).1) ∧
+    runDefault (B.translate d) (draw f atlas (t.translate d)).1 =
+      PMap.shift d (runDefault B (draw f atlas t).1) := by
+  have hR2 := hR'
+  rw [boundingBox_translate] at hR2
+  have hlb : LowerBound (boundingBox f t) := by
+    intro _
+    unfold Rect.InRange inI32 at hR
+    omega
+  have hok' : ∀ c ∈ (draw f atlas t).1, c.MoveOK B d := fun c hc =>
+    callIn_moveOK hR hR2 B (draw_in_boundingBox f atlas t hok hadv hlb c hc)
+  rw [text_translate_calls_all_styles f atlas t d hR hR']
+  exact ⟨runNative_map_translate B d _ hok', runDefault_map_translate B d _ hok'⟩
+
 example : boundingBox ⟨64, 36, 4, 6, 0, 4, 6, 1, 3, 1, fun _ => 0⟩
     ((⟨[65, 66, 10, 67], ⟨0, 0⟩, ⟨some 1, none, .none, .none⟩, ⟨.center, .top, .percent 100⟩⟩ : TextLayout.Text).translate ⟨-7, 3⟩) =
     ⟨⟨-10, 3⟩, ⟨8, 12⟩⟩ := by decide
+
+-- a text with the text colour only (`Foreground` adapter), moved across both axes: the guards hold
+example :
+    let f : MonoFont := ⟨64, 36, 4, 6, 0, 4, 6, 1, 3, 1, fun _ => 0⟩
+    let t : TextLayout.Text := ⟨[65, 66, 10, 67], ⟨3, 2⟩, ⟨some 1, none, .none, .none⟩, ⟨.center, .top, .percent 100⟩⟩
+    FontBoxOK f ∧ (t.style.textColor ≠ none ∨ t.style.bgColor ≠ none ∨ f.spacing = 0) ∧
+      (boundingBox f t).InRange ∧ (boundingBox f (t.translate ⟨-7, -9⟩)).InRange := by decide
 
 end EG.C07.Text
